@@ -436,6 +436,7 @@ def c12(tier, seed):
     ck.require("sim.ping_intervals_checked", 100)
     ck.require("sim.read_timeouts", 50)
     ck.require("sim.keepalive0_connections", 5)
+    ck.require("sim.midpacket_stalls_with_keepalive", 20)
     return ck.finish()
 
 
